@@ -82,6 +82,14 @@ impl<K: Eq, V> HashMap<K, V> {
     pub fn iter(&self) -> impl Iterator<Item = (&K, &V)> {
         self.items.iter().map(|(k, v)| (k, v))
     }
+
+    /// Used by the map literal macro only: the keys of a literal are distinct by construction
+    /// (checked in debug builds), so the duplicate search of `insert` - 54 x 53 / 2 string
+    /// comparisons for the device table - is skipped.
+    pub fn push_literal_entry(&mut self, key: K, value: V) {
+        debug_assert!(self.items.iter().all(|(k, _)| *k != key));
+        self.items.push((key, value));
+    }
 }
 
 impl<K: Eq, V: PartialEq> PartialEq for HashMap<K, V> {
@@ -168,7 +176,7 @@ macro_rules! vmap_hashmap {
             #[allow(unused_mut)]
             let mut _map = $crate::vmap::HashMap::new();
             $(
-                let _ = _map.insert($key, $value);
+                _map.push_literal_entry($key, $value);
             )*
             _map
         }
